@@ -2,6 +2,7 @@
   C03 — Match eligibility and limit-price protection.
 -/
 import AtsProofs.Inv
+import AtsProofs.DecProgress
 import AtsProofs.DecLemmas
 namespace Ats.Proofs
 open Ats Ats.Spec
@@ -105,5 +106,144 @@ theorem C03_whole_thm (env : Env) (s s' : State) (c : Call) (r : Response)
     · rw [hlt] at hf; cases hf
     · exact (Dec.total_exact (Dec.parse_scale hbp) hbn hbe ht hfr2 hu2).1
   · left; simpa using hlt
+
+/-- C03 ("if"): an executor's request that meets the eligibility conditions, with whole quote
+    amounts within the 96-bit range and the configured fees payable, is carried out -/
+theorem C03_if (env : Env) (s : State) (c : Call) (askId bidId price : String) (size : Nat)
+    (hm : c.msg = .executeMatch askId bidId price size)
+    (h : C03_mustAccept s c askId bidId price size = true) :
+    ∃ s' r, execute env s c = .ok (s', r) := by
+  unfold C03_mustAccept at h
+  simp only [Bool.and_eq_true, List.isEmpty_iff, bne_iff_ne, ne_eq] at h
+  obtain ⟨⟨⟨⟨⟨⟨hfunds, hida⟩, hidb⟩, hpne⟩, hconds⟩, hwhole⟩, hready⟩ := h
+  unfold C03_conds at hconds
+  unfold C03_whole at hwhole
+  unfold C03_ready at hready
+  cases ha : s.asks.get? askId with
+  | none => simp [ha] at hready
+  | some a =>
+  cases hb : loadBid s bidId with
+  | none => simp [ha, hb] at hready
+  | some b =>
+  cases hp : Dec.parse price with
+  | none => simp [ha, hb, hp] at hready
+  | some p =>
+  cases hap : Dec.parse a.price with
+  | none => simp [ha, hb, hp, hap] at hready
+  | some ap =>
+  cases hbp : Dec.parse b.price with
+  | none => simp [ha, hb, hp, hap, hbp] at hready
+  | some bp =>
+  simp only [ha, hb, hp, hap, hbp, Bool.and_eq_true, decide_eq_true_eq, Bool.or_eq_true,
+    Bool.not_eq_true', beq_iff_eq] at hconds hwhole hready
+  obtain ⟨hexec, ⟨hq, hcls⟩, ⟨⟨⟨hle, hpr⟩, hs1⟩, hsa⟩, hsb⟩ := hconds
+  obtain ⟨hwp, hwb⟩ := hwhole
+  obtain ⟨⟨⟨hapn, hbpn⟩, hfits⟩, hfees⟩ := hready
+  -- signs and the price rule
+  have hpn : p.neg = false := by
+    rcases hpr with h | h
+    · exact Dec.parse_nonneg_of_eqv hp hapn h
+    · exact Dec.parse_nonneg_of_eqv hp hbpn h
+  have hrule : priceRule ap bp p = .ok () := by
+    apply priceRule_ok.mpr
+    by_cases hlt : Dec.lt ap bp = true
+    · exact Or.inl ⟨hlt, hpr⟩
+    · have hlt' : Dec.lt ap bp = false := by simpa using hlt
+      have heq : Dec.eqv ap bp = true := by
+        rw [Dec.eqv_nat hapn hbpn]
+        have h1 : ¬ (ap.mant * 10 ^ bp.scale < bp.mant * 10 ^ ap.scale) := fun h =>
+          hlt ((Dec.lt_nat hapn hbpn).mpr h)
+        have h2 : ap.mant * 10 ^ bp.scale ≤ bp.mant * 10 ^ ap.scale := by
+          unfold Dec.le at hle
+          rw [Dec.num_nonneg hapn, Dec.num_nonneg hbpn] at hle
+          simp only [decide_eq_true_eq] at hle
+          exact_mod_cast hle
+        omega
+      refine Or.inr ⟨hlt', heq, ?_⟩
+      rcases hpr with h | h
+      · exact h
+      · have hba : Dec.eqv bp ap = true := by
+          rw [Dec.eqv_nat hbpn hapn]; exact ((Dec.eqv_nat hapn hbpn).mp heq).symm
+        exact Dec.eqv_trans hpn hbpn hapn h hba
+  -- gross proceeds
+  unfold matchFits at hfits
+  simp only [Bool.and_eq_true, decide_eq_true_eq, Bool.or_eq_true, Bool.not_eq_true'] at hfits
+  obtain ⟨⟨hszl, hgl⟩, hol⟩ := hfits
+  have hps := Dec.parse_scale hp
+  obtain ⟨grossD, hgt, hgfr, hgu⟩ := Dec.total_of_whole hps hpn hszl hwp hgl
+  obtain ⟨_, _, hgtrunc⟩ := Dec.whole_repr hgfr hgu
+  unfold feesPayable at hfees
+  simp only [hgt, hgtrunc, Bool.and_eq_true] at hfees
+  obtain ⟨haskfee, hbidfee⟩ := hfees
+  -- fees
+  unfold askFeePayable at haskfee
+  cases haf : askFeeAmt s.info grossD with
+  | err e => simp [haf] at haskfee
+  | ok askFee =>
+  simp only [haf, decide_eq_true_eq] at haskfee
+  unfold bidFeePayable at hbidfee
+  cases hcf : calcFee b (product p size) with
+  | err e => simp [hcf] at hbidfee
+  | ok bidFee =>
+  simp only [hcf, Bool.and_eq_true, Bool.or_eq_true, beq_iff_eq, Bool.not_eq_true'] at hbidfee
+  obtain ⟨hacct, horig⟩ := hbidfee
+  obtain ⟨m2, hm2⟩ : ∃ m2, bidFeeMsgs env s.info b (env.restricted b.quote.denom) bidFee = .ok m2 := by
+    by_cases h0 : bidFee = 0
+    · exact ⟨[], bidFeeMsgs_ok.mpr (Or.inl ⟨h0, rfl⟩)⟩
+    · rcases hacct with h | h
+      · exact absurd h h0
+      · cases hbf : s.info.bidFee with
+        | none => simp [hbf] at h
+        | some fi => exact ⟨_, bidFeeMsgs_ok.mpr (Or.inr ⟨h0, fi, hbf, rfl⟩)⟩
+  have hsz0 : size ≠ 0 := by omega
+  have hm3 : classMsgs env (a.reduce size) b (env.restricted a.base) (env.restricted b.quote.denom)
+      (product p size - askFee) size =
+      .ok (classMsgList env (a.reduce size) b (env.restricted a.base) (env.restricted b.quote.denom)
+        (product p size - askFee) size) := by
+    apply classMsgs_ok.mpr
+    refine ⟨?_, fun _ => hsz0, fun _ _ _ _ => hsz0, rfl⟩
+    unfold Ask.reduce
+    cases hc : a.cls <;> simp [hc] at hcls ⊢
+  obtain ⟨rp, hrp⟩ : ∃ rp, refundPart env b (Dec.lt p bp) bp size (product p size) bidFee
+      (env.restricted b.quote.denom) = .ok rp := by
+    cases himp : Dec.lt p bp with
+    | false => exact ⟨_, refundPart_ok.mpr (Or.inl ⟨rfl, rfl⟩)⟩
+    | true =>
+      simp only [himp, Bool.true_eq_false, false_or] at hwb hol horig
+      have hbps := Dec.parse_scale hbp
+      obtain ⟨origD, hot, hofr, hou⟩ := Dec.total_of_whole hbps hbpn hszl hwb hol
+      have hgo := Dec.product_le_of_lt hpn hbpn himp hwp hwb
+      unfold origFeeOK at horig
+      cases hof : calcFee b (product bp size) with
+      | err e => simp [hof] at horig
+      | ok origFee =>
+        simp only [hof, Bool.or_eq_true, beq_iff_eq, decide_eq_true_eq] at horig
+        refine ⟨_, refundPart_ok.mpr (Or.inr ⟨rfl, origD, product bp size, origFee,
+          (if origFee = 0 then 0 else origFee - bidFee), hot, hofr, hou, hgo, hof, ?_, rfl⟩)⟩
+        unfold FeeRefundIs
+        by_cases h0 : origFee = 0
+        · exact Or.inr ⟨h0, by simp [h0]⟩
+        · rcases horig with h | h
+          · exact absurd h h0
+          · exact Or.inl ⟨h0, h, by simp [h0]⟩
+  have hacc : b.accBase ≤ b.base.amount := by
+    unfold Bid.remBase at hsb; omega
+  have hsb' : size ≤ b.base.amount - b.accBase := hsb
+  have hm1 := (askFeeMsgs_ok (env := env) (info := s.info) (rQ := env.restricted b.quote.denom) (n := askFee)
+    (qd := b.quote.denom)).mpr rfl
+  refine ⟨{ s with asks := putAsk s.asks askId (a.reduce size), bids := putBid s.bids bidId rp.2 },
+    { msgs := askFeeMsgList env s.info (env.restricted b.quote.denom) askFee b.quote.denom ++ m2 ++
+        classMsgList env (a.reduce size) b (env.restricted a.base) (env.restricted b.quote.denom)
+          (product p size - askFee) size ++ rp.1,
+      attrs := [("action", "execute"), ("ask_id", askId), ("bid_id", bidId),
+                ("base", b.base.denom), ("quote", a.quote), ("price", price),
+                ("size", toString size), ("ask_fee", toString askFee),
+                ("bid_fee", toString bidFee)] }, ?_⟩
+  unfold execute
+  simp only [hm, ExecMsg.valid, hida, hidb]
+  unfold executeMatch
+  simp [guardR, orErr, subR, hpne, hs1, hexec, hfunds, ha, hb, hq, hap, hbp, hp, hrule, hacc, hsa, hsb',
+    hgt, hgfr, hgu, haf, hm1, haskfee, hcf, hm2, hm3, hrp]
+
 
 end Ats.Proofs
